@@ -380,3 +380,82 @@ Theorem C01_digit_rs_matches_model w : 0 < w ->
   (forall low high rhs, digit_ok w low -> digit_ok w high -> DigitGen.div_rem_wide w low high rhs = div_rem_wide w low high rhs).
 Proof. exact (digit_rs_matches_model w). Qed.
 Print Assumptions C01_digit_rs_matches_model.
+
+(* ---- tie to the source: the glue layer (add / sub / neg / abs families, comparisons, carrying_add / borrowing_sub) REGENERATED from /repo/src on every run
+   (Generated/Glue.v, tools/rs2v_glue.py) is the model's, function by function, for every digit width, digit count,
+   build mode and operand (no well-formedness hypothesis): an edit of the source that changes what one of these
+   one-line functions delegates to breaks this theorem ---- *)
+From Bnum.Model Require Import Digit Core Shift AddSub Mul Div Bits Pow.
+From Bnum.Generated Require Import Glue.
+From Bnum.Proofs Require Import GlueTie.
+Theorem C01_glue_rs_matches_model :
+  (forall w a b, Glue.U_checked_add w a b = U_checked_add w a b) /\
+  (forall w a b, Glue.U_checked_add_signed w a b = U_checked_add_signed w a b) /\
+  (forall w a b, Glue.U_checked_sub w a b = U_checked_sub w a b) /\
+  (forall w a, Glue.U_checked_neg w a = U_checked_neg a) /\
+  (forall w a b, Glue.U_wrapping_add w a b = U_wrapping_add w a b) /\
+  (forall w a b, Glue.U_wrapping_add_signed w a b = U_wrapping_add_signed w a b) /\
+  (forall w a b, Glue.U_wrapping_sub w a b = U_wrapping_sub w a b) /\
+  (forall w a, Glue.U_wrapping_neg w a = U_wrapping_neg w a) /\
+  (forall w p, Glue.U_saturate_up w p = saturate_up w p) /\
+  (forall w p, Glue.U_saturate_down w p = saturate_down p) /\
+  (forall w a b, Glue.U_saturating_add w a b = U_saturating_add w a b) /\
+  (forall w a b, Glue.U_saturating_add_signed w a b = U_saturating_add_signed w a b) /\
+  (forall w a b, Glue.U_saturating_sub w a b = U_saturating_sub w a b) /\
+  (forall w a b, Glue.U_strict_add w a b = U_strict_add w a b) /\
+  (forall w a b, Glue.U_strict_sub w a b = U_strict_sub w a b) /\
+  (forall w a, Glue.U_strict_neg w a = U_strict_neg a) /\
+  (forall w a b, Glue.I_strict_add w a b = I_strict_add w a b) /\
+  (forall w a b, Glue.I_strict_sub w a b = I_strict_sub w a b) /\
+  (forall w a, Glue.I_strict_neg w a = I_strict_neg w a) /\
+  (forall w a b, Glue.U_strict_add_signed w a b = option_expect (U_checked_add_signed w a b)) /\
+  (forall w a, Glue.I_strict_abs w a = I_strict_abs w a) /\
+  (forall w a b, Glue.I_strict_add_unsigned w a b = option_expect (I_checked_add_unsigned w a b)) /\
+  (forall w a b, Glue.I_strict_sub_unsigned w a b = option_expect (I_checked_sub_unsigned w a b)) /\
+  (forall dbg w a b, Glue.U_add dbg w a b = U_add dbg w a b) /\
+  (forall dbg w a b, Glue.U_sub dbg w a b = U_sub dbg w a b) /\
+  (forall dbg w a b, Glue.I_add dbg w a b = I_add dbg w a b) /\
+  (forall dbg w a b, Glue.I_sub dbg w a b = I_sub dbg w a b) /\
+  (forall w a b, Glue.U_max w a b = cmp_max (ucmp a b) a b) /\
+  (forall w a b, Glue.U_min w a b = cmp_min (ucmp a b) a b) /\
+  (forall w a lo hi, Glue.U_clamp w a lo hi = clamp ucmp a lo hi) /\
+  (forall w a b, Glue.U_lt w a b = cmp_lt (ucmp a b)) /\
+  (forall w a b, Glue.U_le w a b = cmp_le (ucmp a b)) /\
+  (forall w a b, Glue.U_gt w a b = cmp_gt (ucmp a b)) /\
+  (forall w a b, Glue.U_ge w a b = cmp_ge (ucmp a b)) /\
+  (forall w a b, Glue.I_max w a b = cmp_max (icmp w a b) a b) /\
+  (forall w a b, Glue.I_min w a b = cmp_min (icmp w a b) a b) /\
+  (forall w a lo hi, Glue.I_clamp w a lo hi = clamp (icmp w) a lo hi) /\
+  (forall w a b, Glue.I_lt w a b = cmp_lt (icmp w a b)) /\
+  (forall w a b, Glue.I_le w a b = cmp_le (icmp w a b)) /\
+  (forall w a b, Glue.I_gt w a b = cmp_gt (icmp w a b)) /\
+  (forall w a b, Glue.I_ge w a b = cmp_ge (icmp w a b)) /\
+  (forall w a b c, Glue.U_carrying_add w a b c = U_carrying_add w a b c) /\
+  (forall w a b c, Glue.U_borrowing_sub w a b c = U_borrowing_sub w a b c) /\
+  (forall w a b c, Glue.I_carrying_add w a b c = I_carrying_add w a b c) /\
+  (forall w a b c, Glue.I_borrowing_sub w a b c = I_borrowing_sub w a b c) /\
+  (forall w a b, Glue.I_checked_add w a b = I_checked_add w a b) /\
+  (forall w a b, Glue.I_checked_add_unsigned w a b = I_checked_add_unsigned w a b) /\
+  (forall w a b, Glue.I_checked_sub w a b = I_checked_sub w a b) /\
+  (forall w a b, Glue.I_checked_sub_unsigned w a b = I_checked_sub_unsigned w a b) /\
+  (forall w a, Glue.I_checked_neg w a = I_checked_neg w a) /\
+  (forall w a, Glue.I_checked_abs w a = I_checked_abs w a) /\
+  (forall w a b, Glue.I_wrapping_add w a b = I_wrapping_add w a b) /\
+  (forall w a b, Glue.I_wrapping_add_unsigned w a b = I_wrapping_add_unsigned w a b) /\
+  (forall w a b, Glue.I_wrapping_sub w a b = I_wrapping_sub w a b) /\
+  (forall w a b, Glue.I_wrapping_sub_unsigned w a b = I_wrapping_sub_unsigned w a b) /\
+  (forall w a, Glue.I_wrapping_neg w a = I_wrapping_neg w a) /\
+  (forall w a, Glue.I_wrapping_abs w a = I_wrapping_abs w a) /\
+  (forall w a b, Glue.I_saturating_add w a b = I_saturating_add w a b) /\
+  (forall w a b, Glue.I_saturating_add_unsigned w a b = I_saturating_add_unsigned w a b) /\
+  (forall w a b, Glue.I_saturating_sub w a b = I_saturating_sub w a b) /\
+  (forall w a b, Glue.I_saturating_sub_unsigned w a b = I_saturating_sub_unsigned w a b) /\
+  (forall w a, Glue.I_saturating_neg w a = I_saturating_neg w a) /\
+  (forall w a, Glue.I_saturating_abs w a = I_saturating_abs w a) /\
+  (forall w a b, Glue.U_overflowing_add_signed w a b = U_overflowing_add_signed w a b) /\
+  (forall w a, Glue.U_overflowing_neg w a = U_overflowing_neg w a) /\
+  (forall w a b, Glue.I_overflowing_add_unsigned w a b = I_overflowing_add_unsigned w a b) /\
+  (forall w a b, Glue.I_overflowing_sub_unsigned w a b = I_overflowing_sub_unsigned w a b) /\
+  (forall w a, Glue.I_overflowing_abs w a = I_overflowing_abs w a).
+Proof. exact glue_addsub_matches_model. Qed.
+Print Assumptions C01_glue_rs_matches_model.
